@@ -36,6 +36,9 @@ func Devirt(pkgs []*packages.Package, module string) *Result {
 				if !ok || fd.Body == nil {
 					continue
 				}
+				if Unchanged(strings.TrimPrefix(strings.TrimPrefix(p.PkgPath, module), "/"), fd) {
+					continue // as on the reference tree: left as written
+				}
 				pl.curFile, pl.curFunc = f, FuncKey(fd)
 				if n := devirtFunc(pl, fd); n > 0 {
 					pl.changed[f] = true
